@@ -71,6 +71,11 @@ typedef struct {
 
   // Nesting level of #include; 0 for the main file
   int include_depth;
+
+  // If the file was found through the include paths, the position of
+  // its directory in the list plus one; otherwise 0. #include_next
+  // continues the search from there.
+  int include_dir_idx;
 } File;
 
 // Token type
